@@ -1,4 +1,6 @@
 import MxlVerif.Lemmas.C15Metric
+import MxlVerif.Lemmas.C15Rel
+import MxlVerif.Lemmas.C15RelNorm
 import MxlVerif.Generated.C15Loop
 /-!
 C15 — steady-state results are steady states; absence is reported as failure.
@@ -11,44 +13,116 @@ variable {σ : Type}
 /-- generated-table obligation: the loop rebinds `y1` to a COPY of `y2`, not to the integrator's buffer -/
 theorem C15_loop_copies : Gen.copies = true := rfl
 
+/-- generated-table obligation: the loop asks `integ.successful()` after every step and stops with
+`IntegrationFailure` instead of comparing the frozen state of a solver that has given up (repair of F-C15-3) -/
+theorem C15_loop_checks_solver : Gen.checks = true := rfl
+
+/-- generated-table obligation: the search starts at the integrator's CURRENT (t0, y0) and advances it on success
+(no `self.reset()`); what the theorems below call "the state the simulator holds" -/
+theorem C15_search_continues : Gen.continues = true := rfl
+
+/-- the library's `simulate_to_steady_state` with the facts read from the source -/
+abbrev simSS (step : σ → σ) (ok : σ → Bool) (small : σ → σ → Bool) (s : Sim σ) : Sim σ :=
+  simulateToSteadyState Gen.continues Gen.copies Gen.checks step ok small Gen.maxSteps Gen.stepSize s
+
 /-- SUCCESS IS A SMALL STEP: success at `n` means `1 ≤ n ≤ max_steps`, the reported state is the flow after
-`n` steps, the `n`-th consecutive difference is below the tolerance and no earlier one was. -/
-theorem C15_success_is_small_step (step : σ → σ) (small : σ → σ → Bool) (y0 : σ) (n : Nat) (r : σ)
-    (h : ssRun Gen.copies step small Gen.maxSteps y0 = .steady n r) :
+`n` steps, the `n`-th consecutive difference is below the tolerance and no earlier one was — and the solver reported
+success at every one of the `n` steps. -/
+theorem C15_success_is_small_step (step : σ → σ) (ok : σ → Bool) (small : σ → σ → Bool) (y0 : σ) (n : Nat) (r : σ)
+    (h : ssRun Gen.copies Gen.checks step ok small Gen.maxSteps y0 = .steady n r) :
     1 ≤ n ∧ n ≤ Gen.maxSteps ∧ r = iter step n y0 ∧
     small (iter step n y0) (iter step (n - 1) y0) = true ∧
-    ∀ j, 1 ≤ j → j < n → small (iter step j y0) (iter step (j - 1) y0) = false := by
-  rw [C15_loop_copies] at h
-  obtain ⟨m, hm, hn, hr, hs, hall⟩ := ssLoop_copy_steady step small _ 0 y0 n r h
+    (∀ j, 1 ≤ j → j < n → small (iter step j y0) (iter step (j - 1) y0) = false) ∧
+    (∀ j, 1 ≤ j → j ≤ n → ok (iter step j y0) = true) := by
+  rw [C15_loop_copies, C15_loop_checks_solver] at h
+  obtain ⟨m, hm, hn, hr, hs, hall, hok⟩ := ssLoop_copy_steady step ok small _ 0 y0 n r h
   have hn' : n = m + 1 := by omega
   subst hn'
-  refine ⟨by omega, by omega, hr, by simpa using hs, ?_⟩
-  intro j hj1 hjn
-  obtain ⟨j', rfl⟩ : ∃ j', j = j' + 1 := ⟨j - 1, by omega⟩
-  simpa using hall j' (by omega)
+  refine ⟨by omega, by omega, hr, by simpa using hs, ?_, ?_⟩
+  · intro j hj1 hjn
+    obtain ⟨j', rfl⟩ : ∃ j', j = j' + 1 := ⟨j - 1, by omega⟩
+    simpa using hall j' (by omega)
+  · intro j hj1 hjn
+    obtain ⟨j', rfl⟩ : ∃ j', j = j' + 1 := ⟨j - 1, by omega⟩
+    exact hok j' (by omega)
 
-/-- NO FALSE SUCCESS: the run fails exactly when every consecutive difference within the budget is at or
-above the tolerance — in particular for constant accumulation and for growth. -/
-theorem C15_no_false_success (step : σ → σ) (small : σ → σ → Bool) (y0 : σ) :
-    ssRun Gen.copies step small Gen.maxSteps y0 = .noSteadyState ↔
-    ∀ m, m < Gen.maxSteps → small (iter step (m + 1) y0) (iter step m y0) = false := by
-  rw [C15_loop_copies]
-  exact ssLoop_copy_none step small _ 0 y0
+/-- NO FALSE SUCCESS: the run ends in `NoSteadyState` exactly when the solver succeeds at every step of the budget and
+every consecutive difference is at or above the tolerance — in particular for constant accumulation and for growth. -/
+theorem C15_no_false_success (step : σ → σ) (ok : σ → Bool) (small : σ → σ → Bool) (y0 : σ) :
+    ssRun Gen.copies Gen.checks step ok small Gen.maxSteps y0 = .noSteadyState ↔
+    ∀ m, m < Gen.maxSteps → ok (iter step (m + 1) y0) = true ∧ small (iter step (m + 1) y0) (iter step m y0) = false := by
+  rw [C15_loop_copies, C15_loop_checks_solver]
+  exact ssLoop_copy_none step ok small _ 0 y0
+
+/-- A SOLVER THAT GIVES UP IS A FAILURE: the run ends in `IntegrationFailure` exactly when the solver reports failure at
+some step within the budget before any consecutive difference was small. -/
+theorem C15_solver_failure_iff (step : σ → σ) (ok : σ → Bool) (small : σ → σ → Bool) (y0 : σ) :
+    ssRun Gen.copies Gen.checks step ok small Gen.maxSteps y0 = .integrationFailure ↔
+    ∃ m, m < Gen.maxSteps ∧ ok (iter step (m + 1) y0) = false ∧
+      ∀ j, j < m → ok (iter step (j + 1) y0) = true ∧ small (iter step (j + 1) y0) (iter step j y0) = false := by
+  rw [C15_loop_copies, C15_loop_checks_solver]
+  exact ssLoop_copy_failure step ok small _ 0 y0
+
+/-- ... hence the state of a solver that has given up — the frozen huge value of a finite-time blow-up — is NEVER
+presented as steady, and neither is anything after it: if the solver fails at step `k`, no success is reported at any
+step `n ≥ k`. -/
+theorem C15_failed_solver_never_steady (step : σ → σ) (ok : σ → Bool) (small : σ → σ → Bool) (y0 : σ) (k n : Nat)
+    (r : σ) (hk1 : 1 ≤ k) (hk : ok (iter step k y0) = false) (hkn : k ≤ n) :
+    ssRun Gen.copies Gen.checks step ok small Gen.maxSteps y0 ≠ .steady n r := by
+  intro h
+  have := (C15_success_is_small_step step ok small y0 n r h).2.2.2.2.2 k hk1 hkn
+  rw [hk] at this
+  cases this
 
 /-- constant accumulation `y ↦ y + d` (e.g. dx/dt = 1) with ‖d‖ ≥ tol is reported as failure
 (the driver's instance: rational vectors, absolute norm). -/
 theorem C15_accumulation_fails (d y0 : List Rat) (tol : Rat) (hlen : d.length = y0.length)
     (hd : tol * tol ≤ normSq d) :
-    ssRun Gen.copies (fun y => List.zipWith (· + ·) y d) (smallAbs tol) Gen.maxSteps y0
+    ssRun Gen.copies Gen.checks (fun y => List.zipWith (· + ·) y d) (fun _ => true) (smallAbs tol) Gen.maxSteps y0
       = .noSteadyState := by
   rw [C15_no_false_success]
   intro m _
+  refine ⟨rfl, ?_⟩
   rw [iter_succ']
   simp only [smallAbs]
   rw [vsub_add_self _ d (iter_add_length d m y0 hlen.symm)]
   simp only [Bool.and_eq_false_iff, decide_eq_false_iff_not]
   right
   exact Rat.not_lt.mpr hd
+
+/-- ... and EXACTLY (F-C15-4): under the absolute norm constant accumulation is reported as failure if and only if the
+drift per search step is at least the tolerance, `‖d‖ ≥ tol`; a slower drift (dx/dt = 2⁻³⁰ at tolerance 1e-6) meets the
+criterion at the first step and is reported as a steady state although it never stops moving. -/
+theorem C15_accumulation_fails_iff (d y0 : List Rat) (tol : Rat) (hlen : d.length = y0.length) (ht : 0 < tol) :
+    ssRun Gen.copies Gen.checks (fun y => List.zipWith (· + ·) y d) (fun _ => true) (smallAbs tol) Gen.maxSteps y0
+      = .noSteadyState ↔ tol * tol ≤ normSq d := by
+  constructor
+  · intro h
+    have h0 := ((C15_no_false_success _ _ _ y0).mp h 0 (by decide)).2
+    simp only [iter, smallAbs, vsub_add_self _ d hlen.symm, ht, decide_true, Bool.true_and,
+      decide_eq_false_iff_not] at h0
+    exact Rat.not_lt.mp h0
+  · exact C15_accumulation_fails d y0 tol hlen
+
+/-- F-C15-2, EXACTLY: one variable that accumulates for ever (`y ↦ y + d` per search step, d > 0, from `y0 > 0`: NO steady
+state) under the RELATIVE criterion is reported as failure if and only if the relative step is still at or above the
+tolerance at the LAST comparison of the budget, `tol·(y0 + (max_steps − 1)·d) ≤ d`.  This is the hypothesis that the
+absolute-norm theorem `C15_accumulation_fails` does not need. -/
+theorem C15_rel_accumulation_fails_iff (d y0 tol : Rat) (hd : 0 < d) (hy : 0 < y0) (ht : 0 < tol) :
+    ssRun Gen.copies Gen.checks (fun y => List.zipWith (· + ·) y [d]) (fun _ => true) (smallRel tol) Gen.maxSteps [y0]
+        = .noSteadyState ↔
+      tol * (y0 + ((Gen.maxSteps - 1 : Nat) : Rat) * d) ≤ d := by
+  rw [C15_loop_copies, C15_loop_checks_solver]
+  exact rel_accumulation_none_iff d y0 tol hd hy ht (Gen.maxSteps - 1)
+
+/-- ... and the finding itself: dx/dt = 1 (d = 100 per step) from x = 100001 with tolerance 1e-3 is reported as a steady
+state at the first step (kernel-evaluated), through `get_result()` as one row at t = 100 with x = 100101. -/
+theorem C15_rel_accumulation_false_success :
+    ssRun Gen.copies Gen.checks (fun y => List.zipWith (· + ·) y [100]) okState (smallRel (1 / 1000)) Gen.maxSteps
+        [100001] = .steady 1 [100101] ∧
+    getResult (simSS (fun y => List.zipWith (· + ·) y [100]) okState (smallRel (1 / 1000)) (Sim.fresh [100001]))
+      = .ok [(100, [100101])] := by
+  constructor <;> decide +kernel
 
 /-- RELATIVE NORM, ZERO COMPONENT: a comparison against a previous state with a component that is exactly 0 is never
 "small" (numpy yields inf/nan there) — a variable resting at 0 can delay success, never cause it. -/
@@ -64,76 +138,146 @@ theorem C15_rel_norm_zero_component_never_small (tol : Rat) (y2 y1 : List Rat) (
 theorem C15_contraction_close {E : Type} [PseudoMetricSpace E] (step : E → E) (xs y0 : E) (c tol : ℝ)
     (hc0 : 0 ≤ c) (hc1 : c < 1) (hcontr : ∀ z, dist (step z) xs ≤ c * dist z xs)
     (n : Nat) (r : E)
-    (h : ssRun Gen.copies step (fun y2 y1 => @decide (dist y2 y1 < tol) (Classical.dec _)) Gen.maxSteps y0
+    (ok : E → Bool)
+    (h : ssRun Gen.copies Gen.checks step ok (fun y2 y1 => @decide (dist y2 y1 < tol) (Classical.dec _)) Gen.maxSteps y0
           = .steady n r) :
     dist r xs ≤ c / (1 - c) * tol := by
-  obtain ⟨h1, _, hr, hs, _⟩ := C15_success_is_small_step step _ y0 n r h
+  obtain ⟨h1, _, hr, hs, _⟩ := C15_success_is_small_step step ok _ y0 n r h
   obtain ⟨m, rfl⟩ : ∃ m, n = m + 1 := ⟨n - 1, by omega⟩
   simp only [Nat.add_sub_cancel, decide_eq_true_eq] at hs
   rw [hr, iter_succ'] at *
   exact close_of_small_step step xs (iter step m y0) c tol hc0 hc1 hcontr hs
 
-/-- FAILURE PROPAGATES: when the loop finds no steady state, `simulate_to_steady_state().get_result()` of a
-fresh simulator is the error `NoSteadyState` (never a state), and the scan row is the NaN default. -/
-theorem C15_failure_propagates (step : σ → σ) (small : σ → σ → Bool) (y0 : σ)
-    (h : ssRun Gen.copies step small Gen.maxSteps y0 = .noSteadyState) :
-    let sim := simulateToSteadyState Gen.stepSize (Sim.fresh : Sim σ)
-      (fun _ => ssRun Gen.copies step small Gen.maxSteps y0)
-    getResult sim = .error .noSteadyState ∧ workerRow (getResult sim) = none := by
-  simp [simulateToSteadyState, Sim.fresh, h, handleResult, getResult, workerRow]
+/-- ... THE SAME FOR A STATE-DEPENDENT THRESHOLD (the relative criterion's form): small = `dist y2 y1 < tol · w y1` ⇒ the
+reported state lies within `c/(1−c)·tol·w(previous state)` of `xs`. -/
+theorem C15_contraction_close_weighted {E : Type} [PseudoMetricSpace E] (step : E → E) (xs y0 : E) (c tol : ℝ)
+    (w : E → ℝ) (hc0 : 0 ≤ c) (hc1 : c < 1) (hcontr : ∀ z, dist (step z) xs ≤ c * dist z xs)
+    (ok : E → Bool) (n : Nat) (r : E)
+    (h : ssRun Gen.copies Gen.checks step ok
+          (fun y2 y1 => @decide (dist y2 y1 < tol * w y1) (Classical.dec _)) Gen.maxSteps y0 = .steady n r) :
+    dist r xs ≤ c / (1 - c) * (tol * w (iter step (n - 1) y0)) := by
+  obtain ⟨h1, _, hr, hs, _⟩ := C15_success_is_small_step step ok _ y0 n r h
+  obtain ⟨m, rfl⟩ : ∃ m, n = m + 1 := ⟨n - 1, by omega⟩
+  simp only [Nat.add_sub_cancel, decide_eq_true_eq] at hs ⊢
+  rw [hr, iter_succ'] at *
+  exact close_of_small_step step xs (iter step m y0) c _ hc0 hc1 hcontr hs
 
-/-- ... also on a simulator that ALREADY HOLDS RESULTS of earlier successful calls (`simulate`, a time course):
-a later steady-state search that fails turns `get_result()` into the error; the stored rows are never presented
-as the outcome. -/
-theorem C15_failure_after_results (step : σ → σ) (small : σ → σ → Bool) (y0 : σ)
-    (rows : Option (List (Nat × σ)))
-    (h : ssRun Gen.copies step small Gen.maxSteps y0 = .noSteadyState) :
-    let sim := simulateToSteadyState Gen.stepSize (⟨[], rows⟩ : Sim σ)
-      (fun _ => ssRun Gen.copies step small Gen.maxSteps y0)
-    getResult sim = .error .noSteadyState ∧ workerRow (getResult sim) = none := by
-  simp [simulateToSteadyState, h, handleResult, getResult, workerRow]
+/-- THE RELATIVE CRITERION IN ABSOLUTE TERMS: the driver's `‖(y2 − y1)/y1‖ < tol` implies `‖y2 − y1‖² ≤ tol²·max_i y1_i²`,
+i.e. it is a criterion of the form above with `w y1 = max_i |y1_i|` — the scale the harness's relative bound uses. -/
+theorem C15_rel_small_is_weighted_abs (tol : Rat) (y2 y1 : List Rat) (h : smallRel tol y2 y1 = true) :
+    normSq (vsub y2 y1) ≤ tol * tol * maxSq y1 :=
+  smallRel_weighted tol y2 y1 h
 
-/-- ... and a success is appended after the stored rows -/
-theorem C15_success_after_results (step : σ → σ) (small : σ → σ → Bool) (y0 : σ) (n : Nat) (r : σ)
-    (rows : List (Nat × σ))
-    (h : ssRun Gen.copies step small Gen.maxSteps y0 = .steady n r) :
-    getResult (simulateToSteadyState Gen.stepSize (⟨[], some rows⟩ : Sim σ)
-      (fun _ => ssRun Gen.copies step small Gen.maxSteps y0)) = .ok (rows ++ [(n * Gen.stepSize, r)]) := by
-  simp [simulateToSteadyState, h, handleResult, getResult]
+/-- FAILURE PROPAGATES: when the loop finds no steady state from the state the simulator holds (`NoSteadyState`) or the
+solver gives up (`IntegrationFailure`), `simulate_to_steady_state().get_result()` is that error (never a state) and the scan row is the NaN
+default — on a fresh simulator and on one that ALREADY HOLDS RESULTS of earlier successful calls (`rows`), after an
+override (`shift`), wherever the integrator stands (`g`); the stored rows are never presented as the outcome, and
+the integrator is left where it was. -/
+theorem C15_failure_propagates (step : σ → σ) (ok : σ → Bool) (small : σ → σ → Bool) (rows : Option (List (Rat × σ)))
+    (shift : Option Rat) (g : Integ σ) (e : SimErr)
+    (h : errOf (ssRun Gen.copies Gen.checks step ok small Gen.maxSteps g.y0) = some e) :
+    let sim := simSS step ok small ⟨[], rows, shift, g⟩
+    getResult sim = .error e ∧ workerRow (getResult sim) = none ∧ sim.integ = g := by
+  cases hr : ssRun Gen.copies Gen.checks step ok small Gen.maxSteps g.y0 with
+  | steady n y => simp [hr, errOf] at h
+  | noSteadyState =>
+    simp only [hr, errOf, Option.some.injEq] at h
+    subst h
+    simp [simSS, simulateToSteadyState, integrateToSteadyState, C15_search_continues, hr, handleResult, getResult,
+      workerRow]
+  | integrationFailure =>
+    simp only [hr, errOf, Option.some.injEq] at h
+    subst h
+    simp [simSS, simulateToSteadyState, integrateToSteadyState, C15_search_continues, hr, handleResult, getResult,
+      workerRow]
 
-/-- ... and success propagates unchanged: one row, time `n * step_size`, the loop's state. -/
-theorem C15_success_propagates (step : σ → σ) (small : σ → σ → Bool) (y0 : σ) (n : Nat) (r : σ)
-    (h : ssRun Gen.copies step small Gen.maxSteps y0 = .steady n r) :
-    let sim := simulateToSteadyState Gen.stepSize (Sim.fresh : Sim σ)
-      (fun _ => ssRun Gen.copies step small Gen.maxSteps y0)
-    getResult sim = .ok [(n * Gen.stepSize, r)] ∧ workerRow (getResult sim) = some r := by
-  simp [simulateToSteadyState, Sim.fresh, h, handleResult, getResult, workerRow]
+/-- kept under its old name: `NoSteadyState` on a simulator that already holds results -/
+theorem C15_failure_after_results (step : σ → σ) (ok : σ → Bool) (small : σ → σ → Bool) (rows : List (Rat × σ))
+    (shift : Option Rat) (g : Integ σ)
+    (h : ssRun Gen.copies Gen.checks step ok small Gen.maxSteps g.y0 = .noSteadyState) :
+    getResult (simSS step ok small ⟨[], some rows, shift, g⟩) = .error .noSteadyState :=
+  (C15_failure_propagates step ok small (some rows) shift g .noSteadyState (by rw [h]; rfl)).1
+
+/-- SUCCESS PROPAGATES, IN ABSOLUTE TIME: when the loop succeeds at step `n` from the state the simulator holds, exactly
+one row is appended after the stored ones, at time `t0 + n·step_size` (+ the override shift) with the loop's state; the
+scan row is that state; and the integrator moves to (`t0 + n·step_size`, that state), so whatever is simulated next
+continues from there. -/
+theorem C15_success_after_results (step : σ → σ) (ok : σ → Bool) (small : σ → σ → Bool) (n : Nat) (r : σ)
+    (rows : List (Rat × σ)) (shift : Option Rat) (g : Integ σ)
+    (h : ssRun Gen.copies Gen.checks step ok small Gen.maxSteps g.y0 = .steady n r) :
+    let sim := simSS step ok small ⟨[], some rows, shift, g⟩
+    let t := g.t0 + (n : Rat) * (Gen.stepSize : Rat)
+    getResult sim = .ok (rows ++ [(t + shift.getD 0, r)]) ∧ workerRow (getResult sim) = some r ∧
+      sim.integ = { g with t0 := t, y0 := r } := by
+  cases shift <;>
+    simp [simSS, simulateToSteadyState, integrateToSteadyState, C15_search_continues, h, handleResult, getResult,
+      workerRow]
+
+/-- ... on a fresh simulator: one row, time `n * step_size`, the loop's state. -/
+theorem C15_success_propagates (step : σ → σ) (ok : σ → Bool) (small : σ → σ → Bool) (y0 : σ) (n : Nat) (r : σ)
+    (h : ssRun Gen.copies Gen.checks step ok small Gen.maxSteps y0 = .steady n r) :
+    let sim := simSS step ok small (Sim.fresh y0)
+    getResult sim = .ok [((n : Rat) * (Gen.stepSize : Rat), r)] ∧ workerRow (getResult sim) = some r := by
+  simp [simSS, Sim.fresh, simulateToSteadyState, integrateToSteadyState, C15_search_continues, h, handleResult,
+    getResult, workerRow]
+
+/-- THE REPORTED TIME IS LATER THAN THE START: a success is reported at least one `step_size` after the time the
+integrator stood at, so after a time course that ended there the steady-state row comes strictly later. -/
+theorem C15_success_time_later (step : σ → σ) (ok : σ → Bool) (small : σ → σ → Bool) (g : Integ σ) (t : Rat) (y : σ) (g' : Integ σ)
+    (h : integrateToSteadyState Gen.continues Gen.copies Gen.checks step ok small Gen.maxSteps Gen.stepSize g
+          = (.timeCourse t y, g')) :
+    g.t0 + (Gen.stepSize : Rat) ≤ t ∧ g'.t0 = t ∧ g'.y0 = y := by
+  simp only [integrateToSteadyState, C15_search_continues, if_true] at h
+  cases hr : ssRun Gen.copies Gen.checks step ok small Gen.maxSteps g.y0 with
+  | noSteadyState => simp [hr] at h
+  | integrationFailure => simp [hr] at h
+  | steady n r =>
+    simp only [hr] at h
+    obtain ⟨h1, _⟩ := C15_success_is_small_step step ok small g.y0 n r hr
+    injection h with ha hb
+    injection ha with ht hy
+    subst hb
+    refine ⟨?_, ht, hy⟩
+    rw [← ht]
+    have : (1 : Rat) ≤ (n : Rat) := by exact_mod_cast h1
+    have hs : (0 : Rat) ≤ (Gen.stepSize : Rat) := by exact_mod_cast Nat.zero_le _
+    nlinarith
 
 /-- an earlier error is never overwritten by a later steady state -/
 theorem C15_error_sticks (s : Sim σ) (e : SimErr) (es : List SimErr) (hs : s.errors = e :: es)
-    (integ : Unit → Outcome σ) :
-    getResult (simulateToSteadyState Gen.stepSize s integ) = .error e := by
-  simp [simulateToSteadyState, hs, getResult]
+    (step : σ → σ) (ok : σ → Bool) (small : σ → σ → Bool) :
+    getResult (simSS step ok small s) = .error e ∧ simSS step ok small s = s := by
+  simp [simSS, simulateToSteadyState, hs, getResult]
 
 /-- the pinned tree's loop (`y1 = y2`, an alias of the integrator's buffer) reports success at the SECOND
 step whatever the dynamics: every later comparison is of the buffer with itself.  (Kept as the reason
 the repair exists; `small a a` holds for any positive tolerance.) -/
 theorem C15_aliased_loop_false_success (step : σ → σ) (small : σ → σ → Bool) (y0 : σ) (maxSteps : Nat)
     (hrefl : ∀ a, small a a = true) (h1 : small (step y0) y0 = false) (hmax : 2 ≤ maxSteps) :
-    ssRun false step small maxSteps y0 = .steady 2 (step (step y0)) := by
+    ssRun false false step (fun _ => true) small maxSteps y0 = .steady 2 (step (step y0)) := by
   obtain ⟨k, rfl⟩ : ∃ k, maxSteps = k + 2 := ⟨maxSteps - 2, by omega⟩
   simp [ssRun, ssLoop, h1, hrefl]
 
 /-- e.g. dx/dt = 1 from x = 1 with step 100: "steady" x = 201 at t = 200 -/
 theorem C15_aliased_loop_witness :
-    ssRun false (fun y => List.zipWith (· + ·) y [100]) (smallAbs (1 / 1000000)) 1000 [1]
+    ssRun false false (fun y => List.zipWith (· + ·) y [100]) okState (smallAbs (1 / 1000000)) 1000 [1]
       = .steady 2 [201] := by
   decide +kernel
 
 /-- non-vacuity: a halving relaxation towards 1 from 5 with tolerance 3/2 converges in the copying loop at
 the second step (5 → 3 → 2), and the hypothesis of `C15_success_is_small_step` is met -/
-example : ssRun true (affine [[1 / 2]] [1 / 2]) (smallAbs (3 / 2)) 3 [5] = .steady 2 [2] := by
-  simp [ssRun, ssLoop, affine, dot, smallAbs, normSq, vsub]
-  norm_num
+example : ssRun true true (affine [[1 / 2]] [1 / 2]) okState (smallAbs (3 / 2)) 3 [5] = .steady 2 [2] := by
+  decide +kernel
+
+/-- F-C15-3, the finding and its repair on the driver's instance (kernel-evaluated): dx/dt = x² from x = 1/250 blows up at
+t = 250; the exact flow gives 1/150 at t = 100, 1/50 at t = 200, and the solver gives up in the third step — the
+search ends in `IntegrationFailure`, and `get_result()` is that error. -/
+theorem C15_blowup_is_failure :
+    ssRun Gen.copies Gen.checks (blowStep [] []) okState (smallAbs (1 / 1000)) Gen.maxSteps [1 / 250]
+      = .integrationFailure ∧
+    iter (blowStep [] []) 2 [1 / 250] = [1 / 50] ∧ okState (iter (blowStep [] []) 3 [1 / 250]) = false ∧
+    getResult (simSS (blowStep [] []) okState (smallAbs (1 / 1000)) (Sim.fresh [1 / 250]))
+      = .error .integrationFailure := by
+  refine ⟨?_, ?_, ?_, ?_⟩ <;> decide +kernel
 
 end Mxl.C15
